@@ -35,6 +35,9 @@ STRUCT_CONFIGS = [{"fmt": "srt", "tf": 1}, {"fmt": "vtt", "lp": 0, "ta": 0, "id"
 
 def run(ctx):
   thorough = ctx.thorough()
+  if ctx.replay_case:
+    C.replay(ctx, PID)
+    return
   ctx.rule = ("a case is one document written under one writer configuration; distinct by (document, configuration); "
               "non-trivial = the output has at least one cue or the writer raised; structure shapes come from the TLC "
               "state dump of CuesShapes.tla, random documents from the seeded generator")
@@ -56,7 +59,7 @@ def run(ctx):
   ctx.count("struct_shapes_run", len(cases))
 
   # 3. code -> spec: random documents
-  ndocs = 1500 if thorough else 90
+  ndocs = 3000 if thorough else 90
   for _ in range(ndocs):
     adoc = G.random_doc(ctx.rng, rich=ctx.rng.random() < 0.5)
     if thorough:
